@@ -33,7 +33,7 @@ ASSUMPTIONS = [
     "ENETRESET, ENETUNREACH, EHOSTUNREACH, ENETDOWN, EHOSTDOWN, ETIMEDOUT, ETIME); other socket errors are documented as "
     "unexpected and are not generated",
     "'eventually' is bounded: after the script is exhausted the transport accepts everything and 4 x (queued grams + 2) "
-    "greedy service calls must leave nothing queued or half-sent",
+    "service calls of one generated kind (greedy or one-step) must leave nothing queued or half-sent",
 ]
 
 UNREACHABLE = ["ECONNREFUSED", "ENOENT", "ECONNRESET", "ENETRESET", "ENETUNREACH", "EHOSTUNREACH", "ENETDOWN", "EHOSTDOWN",
@@ -183,8 +183,9 @@ def run_case(case):
         model.script = []
         m.serviceTxMemos()
         bound = 4 * (len(model.queued) + 2)
+        drain = case.get("drain") or "serviceAllTx"      # the greedy and the one-step service paths must both drain
         for _ in range(bound):
-            m.serviceAllTx()
+            getattr(m, drain)()
         pend = m.txbs[1] is not None and len(m.txbs[0]) > 0
         if not r.failures and (model.head < len(model.queued) or m.txgs or pend):
             if model.remaining is not None and not m.txgs and model.head == len(model.queued) - 1:
@@ -228,7 +229,9 @@ def _strategy():
                     st.tuples(st.just("n"), st.integers(1, 32)), st.tuples(st.just("n"), st.integers(33, 300)),
                     st.just(("all",)), st.just(("all",)),
                     st.tuples(st.just("err"), st.sampled_from(UNREACHABLE))).map(list)
-    return st.fixed_dictionaries({"transport": st.sampled_from(["memoer", "memoer", "udp"]), "size": st.sampled_from([33, 34, 40, 64, 100, 257, 65535]),
+    return st.fixed_dictionaries({"drain": st.sampled_from(["serviceAllTx", "serviceAllTx", "serviceTxGramsOnce", "serviceAllTxOnce",
+                                                            "serviceAllOnce", "serviceTxGrams", "serviceAll"]),
+                                  "transport": st.sampled_from(["memoer", "memoer", "udp"]), "size": st.sampled_from([33, 34, 40, 64, 100, 257, 65535]),
                                   "ops": ops,
                                   "script": st.one_of(
                                       st.lists(tok, max_size=30),
